@@ -37,8 +37,8 @@ type c18Case struct {
 	Adapter string // proto | codec | clonefunc | copyfunc
 	Op      string // clone | copy
 	Src     c18Val
-	Dst     string  // copy: empty | filled | other-repr | other-repr-filled | other-type | non-proto
-	DstFill c18Val  `json:",omitempty"`
+	Dst     string // copy: empty | filled | other-repr | other-repr-filled | other-type | non-proto
+	DstFill c18Val `json:",omitempty"`
 }
 
 func c18New(typ string) proto.Message {
